@@ -96,6 +96,23 @@ class SymTok:
     def __len__(self):
         return len(self.real())
 
+    def __getattr__(self, name):
+        # any other str method: predicates (isdigit, isalpha, ...) stay symbolic, the rest realises the token
+        if name.startswith('__') or not hasattr(str, name):
+            raise AttributeError(name)
+        if name.startswith('is'):
+            return lambda *a: self._pred(lambda t: getattr(t, name)(*a))
+        return getattr(self.real(), name)
+
+    def __contains__(self, x):
+        return x in self.real()
+
+    def __getitem__(self, i):
+        return self.real()[i]
+
+    def __iter__(self):
+        return iter(self.real())
+
     def __symex_int__(self, *a):
         return int(self.real(), *a)
 
@@ -146,6 +163,15 @@ class NumTok:
         if sep == '=':
             return [self]
         raise core.HarnessError('NumTok.split')
+
+    def __getattr__(self, name):
+        if name in ('isdigit', 'isdecimal', 'isnumeric', 'isalnum', 'isascii', 'isprintable'):
+            return lambda: True
+        if name in ('isalpha', 'isspace', 'isupper', 'islower', 'istitle', 'isidentifier'):
+            return lambda: False
+        if name.startswith('__') or not hasattr(str, name):
+            raise AttributeError(name)
+        raise core.HarnessError('NumTok.%s' % name)
 
     def __symex_int__(self, *a):
         return SymInt(self.m)
